@@ -205,6 +205,11 @@ def validate_translator(unit, log, seed, nruns):
     res = {"unit": unit.name, "vectors": 0, "status": "skipped"}
     if unit.opts.get("validate", "1") == "0":
         res["reason"] = unit.opts.get("validate_reason", "disabled for this unit")
+        # link check only: CBMC silently treats a call to a function without a body as a no-op returning a
+        # nondeterministic value; the native link of the translated C reports every such function
+        xe, err = build_native(unit, log, real=False)
+        if not xe:
+            res.update(status="error", reason="translated C does not link natively (a called function has no body): " + err[-1500:])
         return res
     xe, err = build_native(unit, log, real=False)
     if not xe:
@@ -526,11 +531,33 @@ def main(argv):
             if sm["tier"] in tiers and (not a.only or sm["name"] in a.only.split(",")):
                 smt_results.append((u, sm, run_smt(u, sm)))
     memkb = int(os.environ.get("VF_MEM_GB", "6" if a.tier == "quick" else "16")) * 1024 * 1024
+    # memory-aware admission: a query reserves its declared mem_gb (6 GB if none) out of VF_TOTAL_MEM_GB before it
+    # starts, so that parallel heavy queries cannot push the machine into swap / the OOM killer
+    import threading
+    total_gb = int(os.environ.get("VF_TOTAL_MEM_GB", "48"))
+    budget = {"free": total_gb}
+    cond = threading.Condition()
+
+    def admitted(u, ob, limkb, prm):
+        need = min(int(ob.get("mem_gb", 0)) or 6, total_gb)
+        with cond:
+            while budget["free"] < need:
+                cond.wait()
+            budget["free"] -= need
+        try:
+            return run_ob(u, ob, limkb, prm)
+        finally:
+            with cond:
+                budget["free"] += need
+                cond.notify_all()
+
     with cf.ThreadPoolExecutor(max_workers=a.jobs) as ex:
         futs = {}
+        # heavy queries first: they determine the wall time
+        jobs.sort(key=lambda j: -(int(j[1].get("mem_gb", 0)) or 0))
         for u, ob in jobs:
             for prm in ([tuple(int(x) for x in a.params.split(","))] if a.params else expand_params(ob)):
-                futs[ex.submit(run_ob, u, ob, int(ob.get("mem_gb", 0)) * 1024 * 1024 or memkb, prm)] = (u, ob)
+                futs[ex.submit(admitted, u, ob, int(ob.get("mem_gb", 0)) * 1024 * 1024 or memkb, prm)] = (u, ob)
         for f in cf.as_completed(futs):
             u, ob = futs[f]
             r = f.result()
